@@ -245,11 +245,10 @@ def replay(path):
     sc = unjson(doc["scenario"])
     want = sig_key(doc["signature"])
     res = run_scenario(sc)
-    same_sig = any(sig_key(sig_of(h)) == want for h in jsonable(res["hits"]) and res["hits"])
     same_sig = any(sig_key(jsonable(sig_of(h))) == want for h in res["hits"])
     same_digest = res["digest"] == doc["digest"]
-    if same_sig and same_digest:
-        return 1, f"VIOLATION property={doc['property']} replay={path}"
     if same_sig:
-        return 2, f"violation reproduces but digest differs (code changed?): {path}"
-    return 2, f"violation does NOT reproduce: {path}"
+        note = "event-log digest identical to the recorded run" if same_digest else \
+            "event-log digest differs from the recorded run (the code under test changed since it was recorded)"
+        return 1, f"VIOLATION property={doc['property']} replay={path}\n  {note}"
+    return 0, f"replay {path}: the recorded violation does not occur on this tree (property held on the replayed scenario)"
